@@ -159,6 +159,13 @@ Definition codec_shared_calls_bad : list (string * string * string) :=
      then map (fun n => (p, m, n))
               (filter (fun n => negb (last_segment_ok n)) (ev_names "MS" evs ++ ev_names "MP" evs))
      else [] end) method_events.
+(* (3b) through the codec.Parameters interface the caller's object is only ever asked GetParameter *)
+Definition codec_iface_calls_bad : list (string * string * string) :=
+  flat_map (fun x => match x with (p, t, c, m, evs) =>
+     if String.eqb c "codec"
+     then map (fun n => (p, m, n))
+              (filter (fun n => negb (String.eqb n "Parameters.GetParameter")) (ev_names "I" evs))
+     else [] end) method_events.
 (* (4) GetParameter of every parameter type writes nothing *)
 Definition getparameter_writes : list (string * string) :=
   flat_map (fun x => match x with (p, t, c, m, evs) =>
@@ -175,7 +182,7 @@ Definition validate_unguarded_writes : list (string * string * string) :=
 
 Definition params_ok : bool :=
   is_nil codec_shared_stores && is_nil param_store_violations && is_nil codec_shared_calls_bad
-  && is_nil getparameter_writes && is_nil validate_unguarded_writes.
+  && is_nil codec_iface_calls_bad && is_nil getparameter_writes && is_nil validate_unguarded_writes.
 
 (* ==================================================================================== *)
 (* The C18 obligation in full, and what holds of it on the unchanged repository          *)
@@ -208,6 +215,14 @@ Lemma validate_unguarded_writes_now :
     [("jpeg2000/htj2k", "Parameters", "BlockWidth"); ("jpeg2000/htj2k", "Parameters", "BlockHeight")].
 Proof. vm_compute. reflexivity. Qed.
 
+(* FINDING (C18), second: Decode of the JPEG-LS near-lossless codec calls
+   parameters.SetParameter("near", near) on the CALLER's parameters object for every frame
+   (jpegls/nearlossless/codec.go), i.e. it writes a shared object: concurrent Decode calls
+   race with each other (write/write on NEAR) and with Encode's Validate (read). *)
+Lemma codec_iface_calls_bad_now :
+  codec_iface_calls_bad = [("jpegls/nearlossless", "Decode", "Parameters.SetParameter")].
+Proof. vm_compute. reflexivity. Qed.
+
 Theorem facts_ok_refuted : facts_ok_full = false.
 Proof. vm_compute. reflexivity. Qed.
 
@@ -217,12 +232,15 @@ Theorem facts_ok_partial :
   codec_shared_stores = [] /\ param_store_violations = [] /\ codec_shared_calls_bad = [] /\
   getparameter_writes = [] /\
   (forall v, In v validate_unguarded_writes ->
-     fst (fst v) = "jpeg2000/htj2k" /\ snd (fst v) = "Parameters").
+     fst (fst v) = "jpeg2000/htj2k" /\ snd (fst v) = "Parameters") /\
+  (forall v, In v codec_iface_calls_bad -> v = ("jpegls/nearlossless", "Decode", "Parameters.SetParameter")).
 Proof.
   split; [apply pkg_level_ok_true|]. split; [apply imports_ok_true|].
   split; [apply nondet_ok_true|]. split; [apply codec_receiver_ok_true|].
   destruct params_parts_true as [A [B [C E]]]. repeat (split; [assumption|]).
-  rewrite validate_unguarded_writes_now. intros v [<-|[<-|[]]]; split; reflexivity.
+  split.
+  - rewrite validate_unguarded_writes_now. intros v [<-|[<-|[]]]; split; reflexivity.
+  - rewrite codec_iface_calls_bad_now. intros v [<-|[]]. reflexivity.
 Qed.
 
 (* The part the property text itself names as the schedule-independent static obligation:
@@ -231,7 +249,8 @@ Qed.
 Theorem facts_static_obligation : pkg_level_ok = true /\ codec_receiver_ok = true.
 Proof. split; [apply pkg_level_ok_true|apply codec_receiver_ok_true]. Qed.
 
-(* After the repair (guard the two assignments: `if v := nearestPowerOf2(p.BlockWidth);
+(* After the repairs (drop the SetParameter call from the near-lossless Decode — or write it
+   only into a parameters object the codec created itself — and guard the two assignments: `if v := nearestPowerOf2(p.BlockWidth);
    v != p.BlockWidth { p.BlockWidth = v }`) the list above becomes [] and the full statement
    is proved by
        Theorem facts_ok : facts_ok_statement. Proof. vm_compute. reflexivity. Qed.
@@ -464,6 +483,36 @@ Proof.
   - exact Hfresh.
   - assumption.
 Qed.
+
+(* The hypothesis "the configuration is not written by the calls of the history" matters for
+   the Encoder too.  NewEncoder keeps the caller's pointer to EncodeParams, so a caller can change
+   the parameters between two Encode calls (the only way to code images of another depth or
+   mode with the same object).  That is a call that writes the configuration field: it is not
+   `compatible`, the theorem does not apply, and in the model the quantisation cache computed
+   for the OLD parameters survives: *)
+Definition encoder_set_params : call :=
+  mkCall "*params = ..." [SAssign "caller" "params" "new_params" []] "void" [].
+
+Lemma encoder_set_params_not_compatible :
+  compatible encoder_cfg encoder_encode encoder_set_params = false.
+Proof. vm_compute. reflexivity. Qed.
+
+Definition enc_app (g : string) (a : nat) (vs : list (option nat)) : nat :=
+  if String.eqb g "new_params" then a
+  else if String.eqb g "codestream" then (100 * val0 (nth 0 vs None) + val0 (nth 11 vs None))%nat
+  else O.
+Definition enc_app0 (g : string) (vs : list (option nat)) : nat :=
+  if String.eqb g "quant.steps" then val0 (nth 0 vs None) else O.
+
+Definition enc_out (params0 : nat) (h : list (call * nat)) (a : nat) : nat :=
+  snd (exec_call nat nat enc_app enc_app0 dec_append a
+         (run_history nat nat enc_app enc_app0 dec_append h
+            (rupd nat (fresh nat) "params" (Some params0))) encoder_encode).
+
+Theorem encoder_params_change_refuted :
+  (* Encode with parameters 1, change them to 2, Encode: not what a new encoder with parameters 2 gives *)
+  enc_out 1 [(encoder_encode, 7); (encoder_set_params, 2)] 7 <> enc_out 2 [] 7.
+Proof. vm_compute. discriminate. Qed.
 
 (* The two halves of facts_cover in one statement. *)
 Theorem facts_cover : decoder_facts_cover = true /\ encoder_facts_cover = true.
